@@ -38,3 +38,8 @@ check("C02", "model_checking",
       "Explicit-state search over the real Processor handlers with a reference model of the publish point (maps written from the statement) compared with the real outputs on every transition: (A) free histories incl. governance-emitter observations, operator injection, re-observation, invalid traffic, set update; (B) permutation mode: every ordering of fixed event multisets (message + every signer subset for n=1..4 (5 thorough), with invalid traffic, duplicates, re-observation, a set update; n=13/19 at quorum-1/quorum/quorum+1 from a non-initial state) with a confluence check over the final states of all complete orderings; (C) histories without a local observation never publish.",
       "Confluence is judged only where the node is a member of the set (the statement's 'its own included') and the multiset has no set update; operator injection is explored only after a set is known.",
       "explicit-state BFS / all-orderings exploration of the real processor against a reference model of the publish point", "DESIGN.md 5/C02", "E-BFS (proch)")
+
+check("C13", "model_checking",
+      "Explicit-state search over adversarial input histories of the real Processor handlers: chain messages with empty / 1001-byte / oversized payloads, 1970 and post-2106 timestamps, zero address, governance emitter, same id re-observed 45 s later; gossip with hash length 0/31/33, signature length 0/64/66, nil/short/long address, all-nil message; 17 inbound-VAA shapes (nil, 56/57/58 bytes, 255 signatures announced, empty-payload quorum VAA, version 2, truncated signature, and the C01 validity classes); injection; guardian sets with 1/3/19 members and with no keys, in any order; cleanup ticks after 0 s/31 s/6 min/2 h; no guardian set yet is a legal initial state. Exact virtual ages are part of the state key. Any panic in any transition is a violation; in every newly reached state the good suffix (Set, fresh Msg, loopback, quorum of observations) must still publish.",
+      "Handler level (VerifDispatch mirrors the Run loop's select one event per call); the real Run goroutine itself is not driven in this check. Nil message/guardian-set pointers are trusted in-process values and not in the alphabet.",
+      "explicit-state BFS over adversarial handler-event histories with panic capture and a liveness suffix in every state", "DESIGN.md 5/C13", "E-BFS (proch)")
